@@ -313,8 +313,30 @@ def install_coop_locks(sched):
     assert hasattr(sc, "SpecClassMetadata") and hasattr(mu, "_modules_copyable")
 
     factory = lambda: CoopRLock(sched)  # noqa: E731
+    real_rlock_type = type(threading.RLock())
     sc.RLock = factory
     mu.RLock = factory
-    inst = getattr(mu._modules_copyable, "__instance__", None)
-    if inst is not None:
-        inst.lock = CoopRLock(sched)
+    replaced = 0
+    # module-level locks (however the copy protection is organised) ...
+    for mod in (sc, mu):
+        for name, val in list(vars(mod).items()):
+            if isinstance(val, real_rlock_type):
+                setattr(mod, name, CoopRLock(sched))
+                replaced += 1
+    # ... and locks held as attributes of the copy-protection singleton / class
+    cp = getattr(mu, "_modules_copyable", None)
+    for holder in (cp, getattr(cp, "__instance__", None)):
+        if holder is None:
+            continue
+        try:
+            items = list(vars(holder).items())
+        except TypeError:
+            continue
+        for name, val in items:
+            if isinstance(val, real_rlock_type):
+                try:
+                    setattr(holder, name, CoopRLock(sched))
+                    replaced += 1
+                except (AttributeError, TypeError):
+                    pass
+    return replaced
